@@ -82,6 +82,12 @@ def cases(tier, seed):
         for fname, fargs in FILTERS:
             for out_mode in ("stdout", "file"):
                 out.append({"tree": tree, "filter": fname, "fargs": fargs, "out": out_mode, "hard": hard, "ti": ti})
+                # the colour-related environment variables of terminals and CI systems: a report that goes to a pipe or a
+                # file is the same text whatever they say
+                if fname == FILTERS[0][0] and ti % 5 == 0:
+                    for env in ({"CLICOLOR_FORCE": "1"}, {"NO_COLOR": "1"}, {"CLICOLOR_FORCE": "1", "TERM": "xterm-256color"},
+                                {"CLICOLOR": "0", "TERM": "dumb"}, {"FORCE_COLOR": "1", "COLORTERM": "truecolor"}):
+                        out.append({"tree": tree, "filter": fname, "fargs": fargs, "out": out_mode, "hard": hard, "ti": ti, "env": env})
     for out_mode in ("stdout", "file"):
         out.append({"link_root": True, "out": out_mode, "orders": [["LNK", "B", "C"], ["B", "LNK", "C"], ["C", "B", "LNK"]]})
         out.append({"nested_roots": True, "out": out_mode,
@@ -251,6 +257,8 @@ def evaluate(case):
     viol = []
     fname, fargs = case["filter"], case["fargs"]
     feat = {"filter": fname, "output": case["out"]}
+    if case.get("env"):
+        feat["environment"] = " ".join("%s=%s" % kv for kv in sorted(case["env"].items()))
     outcomes = []
     with C.Scratch() as sc:
         C.make_tree(sc.tree, case["tree"])
@@ -266,7 +274,7 @@ def evaluate(case):
                     with open(outfile, "ab") as f:
                         f.write(b"# stale line of an earlier report\n" * 2000)
                     args += ["-o", outfile]
-                rc, out, err, to = C.fclones(args, sc)
+                rc, out, err, to = C.fclones(args, sc, env_extra=case.get("env"))
                 if to or rc != 0:
                     viol.append(dict(feat, kind="crash", format=fmt, detail="rc=%s %s; %s" % (rc, err[-300:], args)))
                     continue
@@ -418,3 +426,6 @@ def finish(stats, tier):
 
 
 RULE += ' Since rounds 10-11 also: an input path that is a symbolic link to a file under --isolate -S; nested isolate roots in four orders.'
+
+
+RULE += " Since round 12 also: every fifth tree under the colour-related environment variables CLICOLOR_FORCE, NO_COLOR, CLICOLOR, FORCE_COLOR, TERM, COLORTERM (output to a pipe and to a file)."
